@@ -25,6 +25,7 @@ import (
 	"github.com/jackalLabs/canine-chain/v4/app"
 	alltypes "github.com/jackalLabs/canine-chain/v4/types"
 	minttypes "github.com/jackalLabs/canine-chain/v4/x/jklmint/types"
+	oracletypes "github.com/jackalLabs/canine-chain/v4/x/oracle/types"
 	rnstypes "github.com/jackalLabs/canine-chain/v4/x/rns/types"
 	sttypes "github.com/jackalLabs/canine-chain/v4/x/storage/types"
 	"github.com/wealdtech/go-merkletree/v2"
@@ -362,6 +363,28 @@ func (g *storageGen) allFiles() []sttypes.UnifiedFile {
 	return g.c.A.StorageKeeper.GetAllFileByMerkle(g.c.Ctx())
 }
 
+// expectedJklPrice: the harness's own reading of what the JKL price is — the `price` string of the feed named by the
+// PriceFeed parameter when the feed exists, its data is a JSON object and that string parses as a decimal; 0.20 otherwise.
+// Fields of other types next to the price do not matter.  (Independent of Keeper.GetJklPrice, which the model takes as input.)
+func (g *storageGen) expectedJklPrice() BigNum {
+	def := sdk.MustNewDecFromStr("0.20")
+	c := g.c
+	f, found := c.A.OracleKeeper.GetFeed(c.Ctx(), c.A.StorageKeeper.GetParams(c.Ctx()).PriceFeed)
+	if !found {
+		return BigNum{def.BigInt()}
+	}
+	var m map[string]interface{}
+	if json.Unmarshal([]byte(f.Data), &m) != nil {
+		return BigNum{def.BigInt()}
+	}
+	if ps, ok := m["price"].(string); ok {
+		if d, err := sdk.NewDecFromStr(ps); err == nil {
+			return BigNum{d.BigInt()}
+		}
+	}
+	return BigNum{def.BigInt()}
+}
+
 func (g *storageGen) jklPriceRaw() BigNum {
 	p := g.c.A.StorageKeeper.GetJklPrice(g.c.Ctx())
 	return BigNum{p.BigInt()}
@@ -371,7 +394,7 @@ func (g *storageGen) jklPriceRaw() BigNum {
 // derived by the chain from height, end time and coins).  When a deposit leaves the record
 // byte-identical (e.g. an empty coin list into an existing id) the gauge started at this block
 // time with the expected end is taken.
-func gaugeDelta(pre, post stState, now int64, wantEnd *big.Int) (string, string) {
+func gaugeDelta(pre, post stState, now *big.Int, wantEnd *big.Int) (string, string) {
 	m := map[string]string{}
 	for _, p := range pre.Gauges {
 		b, _ := json.Marshal(p[1])
@@ -385,7 +408,7 @@ func gaugeDelta(pre, post stState, now int64, wantEnd *big.Int) (string, string)
 	}
 	for _, p := range post.Gauges {
 		g := p[1].(map[string]interface{})
-		if g["startT"].(BigNum).Int64() == now && g["endT"].(BigNum).Int.Cmp(wantEnd) == 0 {
+		if g["startT"].(BigNum).Int.Cmp(now) == 0 && g["endT"].(BigNum).Int.Cmp(wantEnd) == 0 {
 			return p[0].(string), g["account"].(string)
 		}
 	}
@@ -409,14 +432,21 @@ func (g *storageGen) next() (sdk.Msg, map[string]interface{}, func(pre, post stS
 		k = m.buy + m.post + m.del + m.proof + m.prov + m.forms // the signature branch
 	}
 	params := c.A.StorageKeeper.GetParams(c.Ctx())
+	if f, found := c.A.OracleKeeper.GetFeed(c.Ctx(), params.PriceFeed); found && r.Intn(12) == 0 {
+		// the feed owner publishes a new quote (an oracle message; the storage model reads the price as an input):
+		// well-formed, with fields of another type next to the price, without a price, not JSON, zero, negative, huge
+		data := []string{`{"price":"0.30","24h_change":"0"}`, `{"price":"0.30","24h_change":1.5}`, `{"price":"1.5","24h_change":null,"x":[1]}`,
+			`{"24h_change":"0"}`, `{"price":0.3}`, `not json`, `{"price":"0"}`, `{"price":"-1"}`, `{"price":"1000000"}`, `{"price":"0.000001"}`, `[]`, `{"price":"abc"}`}[r.Intn(12)]
+		c.Deliver(&oracletypes.MsgUpdateFeed{Creator: f.Owner, Name: params.PriceFeed, Data: data})
+	}
 	files := g.allFiles()
 	bigEnd := func(days int64) *big.Int { // now + days·24h without wrap-around, as the chain's time arithmetic gives it
 		e := new(big.Int).Mul(big.NewInt(days), big.NewInt(86400_000_000_000))
-		return e.Add(e, big.NewInt(c.T.UnixNano()))
+		return e.Add(e, unixNanoJ(c.T).Int)
 	}
 	fillGauge := func(key string, wantEnd *big.Int) func(pre, post stState, op map[string]interface{}) {
 		return func(pre, post stState, op map[string]interface{}) {
-			id, acc := gaugeDelta(pre, post, c.T.UnixNano(), wantEnd)
+			id, acc := gaugeDelta(pre, post, unixNanoJ(c.T).Int, wantEnd)
 			o := op[key].(map[string]interface{})
 			o["gaugeId"], o["gaugeAcc"] = id, acc
 		}
@@ -495,8 +525,8 @@ func (g *storageGen) next() (sdk.Msg, map[string]interface{}, func(pre, post stS
 		if g.out != nil && ref != "" {
 			c.emitResolve(g.out, g.hi, g.blocks, ref, g.users)
 		}
-		op := map[string]interface{}{"buyStorage": map[string]interface{}{"creator": creator, "forAddress": forAddr, "durationDays": days, "bytes": byts, "denom": denom, "referral": refJ, "jklPrice": g.jklPriceRaw(), "gaugeId": "", "gaugeAcc": "", "creatorRaw": rawCreator, "forAddressRaw": rawFor}}
-		return msg, op, fillGauge("buyStorage", new(big.Int).Add(big.NewInt(c.T.UnixNano()), big.NewInt(days*86400_000_000_000))) // time.Duration(days)*24h wraps in int64
+		op := map[string]interface{}{"buyStorage": map[string]interface{}{"creator": creator, "forAddress": forAddr, "durationDays": days, "bytes": byts, "denom": denom, "referral": refJ, "jklPrice": g.jklPriceRaw(), "jklPriceExpected": g.expectedJklPrice(), "gaugeId": "", "gaugeAcc": "", "creatorRaw": rawCreator, "forAddressRaw": rawFor}}
+		return msg, op, fillGauge("buyStorage", new(big.Int).Add(unixNanoJ(c.T).Int, big.NewInt(days*86400_000_000_000))) // time.Duration(days)*24h wraps in int64
 	case k < m.buy+m.post:
 		creator := g.user()
 		// real content, a few chunks
@@ -570,7 +600,7 @@ func (g *storageGen) next() (sdk.Msg, map[string]interface{}, func(pre, post stS
 			g.lastPost, g.lastPostH = msg, c.H
 		}
 		op := map[string]interface{}{"postFile": map[string]interface{}{"creator": creator, "merkle": hex.EncodeToString(merkle), "fileSize": size, "maxProofs": maxProofs, "expires": expires, "proofType": 0,
-			"note": note, "noteValid": jsonValid(note), "jklPrice": g.jklPriceRaw(), "gaugeId": "", "gaugeAcc": ""}}
+			"note": note, "noteValid": jsonValid(note), "jklPrice": g.jklPriceRaw(), "jklPriceExpected": g.expectedJklPrice(), "gaugeId": "", "gaugeAcc": ""}}
 		payDays := (expires - c.H) * 6 / 60 / 60 / 24
 		return msg, op, fillGauge("postFile", bigEnd(payDays))
 	case k < m.buy+m.post+m.del:
@@ -674,6 +704,12 @@ func (g *storageGen) next() (sdk.Msg, map[string]interface{}, func(pre, post stS
 			// provider and collateral records are keyed by the signer string as sent: the upper-case
 			// spelling of an address is a second registration of the same account
 			creator = strings.ToUpper(creator)
+		}
+		if m.name == "collateral" && r.Intn(6) == 0 {
+			if provs := c.A.StorageKeeper.GetAllProviders(c.Ctx()); len(provs) > 0 { // any registered provider, also one that came with the genesis
+				creator = provs[r.Intn(len(provs))].Address
+				return &sttypes.MsgShutdownProvider{Creator: creator}, map[string]interface{}{"shutdownProvider": map[string]interface{}{"creator": creator}}, nil
+			}
 		}
 		if _, found := c.A.StorageKeeper.GetProviders(c.Ctx(), creator); found && r.Intn(map[bool]int{true: 9, false: 3}[m.name == "forms"]) == 0 {
 			return &sttypes.MsgShutdownProvider{Creator: creator}, map[string]interface{}{"shutdownProvider": map[string]interface{}{"creator": creator}}, nil
@@ -886,11 +922,34 @@ func runStorage(profile string, seed int64, histories, steps int, out *Emitter) 
 					addr := sdk.AccAddress([]byte(fmt.Sprintf("seeded-provider-%04d", n))).String()
 					amt := int64(1000 + n)
 					total += amt
-					sg.ProvidersList = append(sg.ProvidersList, sttypes.Providers{Address: addr, Ip: fmt.Sprintf("https://p%d.seeded.net", n), Totalspace: "1000000000", BurnedContracts: "0", Creator: addr, KeybaseIdentity: "", AuthClaimers: []string{}})
+					seededGaugeAccs = append(seededGaugeAccs, addr) // tracked in the ledger abstraction from the first record on
+					creatorField := addr
+					if n%10 == 7 {
+						creatorField = users[n%len(users)].String() // a record whose creator field names another account (a migrated genesis): the address it is stored under is the provider
+					}
+					sg.ProvidersList = append(sg.ProvidersList, sttypes.Providers{Address: addr, Ip: fmt.Sprintf("https://p%d.seeded.net", n), Totalspace: "1000000000", BurnedContracts: "0", Creator: creatorField, KeybaseIdentity: "", AuthClaimers: []string{}})
 					sg.CollateralList = append(sg.CollateralList, sttypes.Collateral{Address: addr, Amount: amt})
 				}
 				bg.Balances = append(bg.Balances, banktypes.Balance{Address: esc, Coins: sdk.NewCoins(sdk.NewInt64Coin("ujkl", total))})
 				bg.Supply = bg.Supply.Add(sdk.NewInt64Coin("ujkl", total))
+				gs[banktypes.ModuleName] = cdc.MustMarshalJSON(&bg)
+			}
+			if (profile == "proofs" || profile == "storage") && hi%4 == 2 {
+				// a few live gauges in another denomination next to the ujkl ones the messages open (only a genesis or an
+				// upgrade can create them): reward blocks then release two denominations, and a small prover's share of
+				// the scarce one rounds down to nothing
+				var bg banktypes.GenesisState
+				cdc.MustUnmarshalJSON(gs[banktypes.ModuleName], &bg)
+				for n := 0; n < 5; n++ {
+					id := sha256.Sum256([]byte(fmt.Sprintf("seeded-utest-gauge-%d", n)))
+					pg := sttypes.PaymentGauge{Id: id[:], Start: time.Unix(genesisUnix, 0).UTC(), End: time.Unix(genesisUnix, 0).UTC().Add(time.Duration(1500+700*n) * 24 * time.Hour),
+						Coins: sdk.NewCoins(sdk.NewInt64Coin("utest", int64(3+11*n)))}
+					sg.PaymentGauges = append(sg.PaymentGauges, pg)
+					acc, _ := sttypes.GetGaugeAccount(pg)
+					seededGaugeAccs = append(seededGaugeAccs, acc.String())
+					bg.Balances = append(bg.Balances, banktypes.Balance{Address: acc.String(), Coins: pg.Coins})
+					bg.Supply = bg.Supply.Add(pg.Coins...)
+				}
 				gs[banktypes.ModuleName] = cdc.MustMarshalJSON(&bg)
 			}
 			if profile == "payments" && hi%4 == 3 {
@@ -903,6 +962,11 @@ func runStorage(profile string, seed int64, histories, steps int, out *Emitter) 
 					amt := int64(50_000 + 137*n)
 					pg := sttypes.PaymentGauge{Id: id[:], Start: time.Unix(genesisUnix, 0).UTC(), End: time.Unix(genesisUnix, 0).UTC().Add(time.Duration(30+n) * 24 * time.Hour),
 						Coins: sdk.NewCoins(sdk.NewInt64Coin("ujkl", amt))}
+					if n%8 == 5 {
+						// a gauge of two denominations (only a genesis or an upgrade can create one): a dust amount of the
+						// denomination that sorts first next to a real amount of the other
+						pg.Coins = sdk.NewCoins(sdk.NewInt64Coin("ujkl", 1), sdk.NewInt64Coin("utest", amt))
+					}
 					sg.PaymentGauges = append(sg.PaymentGauges, pg)
 					acc, _ := sttypes.GetGaugeAccount(pg)
 					seededGaugeAccs = append(seededGaugeAccs, acc.String())
@@ -924,13 +988,23 @@ func runStorage(profile string, seed int64, histories, steps int, out *Emitter) 
 			gs[minttypes.ModuleName] = cdc.MustMarshalJSON(mg)
 			rg := rnstypes.DefaultGenesis()
 			rg.NamesList = []rnstypes.Names{{Name: "alice", Tld: "jkl", Expires: 1 << 40, Value: users[1].String(), Data: "{}", Subdomains: []*rnstypes.Names{}}}
+			if hi%2 == 0 && (profile == "payments" || profile == "storage") {
+				// the price feed exists (owned by the first user): what a purchase costs then depends on what the feed says
+				og := oracletypes.DefaultGenesis()
+				og.FeedList = []oracletypes.Feed{{Owner: users[0].String(), Data: `{"price":"0.25","24h_change":"0"}`, LastUpdate: time.Unix(genesisUnix, 0).UTC(), Name: sg.Params.PriceFeed}}
+				gs[oracletypes.ModuleName] = cdc.MustMarshalJSON(og)
+			}
 			gs[rnstypes.ModuleName] = cdc.MustMarshalJSON(rg)
 		}
 		if hi%2 == 1 {
 			genesisPoorUsers = 1 // an account that can afford small prices only: transfers that fail half-way through a handler
 		}
 		seededGaugeAccs = nil
+		if (profile == "plans" && hi%4 == 3) || (profile == "payments" && hi%4 == 2) {
+			genesisUnix = 9214646400 // 2262-01-01: the chain's clock passes the last instant an int64 of nanoseconds can hold (2262-04-11)
+		}
 		c := NewChain(mix.users, []string{"ujkl", "utest"}, mut)
+		genesisUnix = genesisUnixDefault
 		seenGaugeAccs = append([]string{}, seededGaugeAccs...)
 		g := &storageGen{c: c, r: r, data: map[string]*dataFile{}, mix: mix, qr: rand.New(rand.NewSource(seed*7919 + int64(hi) + 17)), noGauges: noGauges, out: out, hi: hi}
 		for _, u := range c.Users {
@@ -958,7 +1032,7 @@ func runStorage(profile string, seed int64, histories, steps int, out *Emitter) 
 					break
 				}
 				post, bad := c.storageAbs(g.users)
-				out.Emit(map[string]interface{}{"mod": "storage", "hist": hi, "i": i, "h": c.H, "now": c.T.UnixNano(), "pre": pre, "op": "restart", "ok": true, "post": post, "badKeys": bad, "users": g.users,
+				out.Emit(map[string]interface{}{"mod": "storage", "hist": hi, "i": i, "h": c.H, "now": unixNanoJ(c.T), "pre": pre, "op": "restart", "ok": true, "post": post, "badKeys": bad, "users": g.users,
 					"genesis": c.storageGenesisJ()})
 				out.Count(profile+".restart", true)
 				restartNow = true // its first block follows at once
@@ -996,7 +1070,7 @@ func runStorage(profile string, seed int64, histories, steps int, out *Emitter) 
 					break
 				}
 				post, bad := c.storageAbs(g.users)
-				out.Emit(map[string]interface{}{"mod": "storage", "hist": hi, "i": i, "h": c.H, "now": c.T.UnixNano(), "pre": pre, "op": "block", "ok": true, "post": post, "badKeys": bad, "users": g.users})
+				out.Emit(map[string]interface{}{"mod": "storage", "hist": hi, "i": i, "h": c.H, "now": unixNanoJ(c.T), "pre": pre, "op": "block", "ok": true, "post": post, "badKeys": bad, "users": g.users})
 				reward := c.H%c.A.StorageKeeper.GetParams(c.Ctx()).CheckWindow == 0
 				if reward {
 					out.Count(profile+".rewardBlock", true)
@@ -1122,7 +1196,7 @@ func runStorage(profile string, seed int64, histories, steps int, out *Emitter) 
 				want["collateralPrice"], want["pricePerTbPerMonth"], want["polRatio"], want["referralCommission"] = np.CollateralPrice, np.PricePerTbPerMonth, np.PolRatio, np.ReferralCommission
 				want["attestMinToPass"], want["attestFormSize"] = np.AttestMinToPass, np.AttestFormSize
 				want["proofWindow"] = np.ProofWindow
-				out.Emit(map[string]interface{}{"mod": "storage", "hist": hi, "i": i, "h": c.H, "now": c.T.UnixNano(), "pre": pre, "op": map[string]interface{}{"setParams": want}, "ok": ok, "post": post, "badKeys": bad, "users": g.users})
+				out.Emit(map[string]interface{}{"mod": "storage", "hist": hi, "i": i, "h": c.H, "now": unixNanoJ(c.T), "pre": pre, "op": map[string]interface{}{"setParams": want}, "ok": ok, "post": post, "badKeys": bad, "users": g.users})
 				out.Count(profile+".setParams", ok)
 				continue
 			}
@@ -1132,7 +1206,7 @@ func runStorage(profile string, seed int64, histories, steps int, out *Emitter) 
 				g.r = g.qr
 				q, resp, kind := g.queryStep()
 				g.r = save
-				out.Emit(map[string]interface{}{"mod": "query", "sub": "storage", "hist": hi, "i": i, "h": c.H, "now": c.T.UnixNano(), "state": qst, "q": q, "resp": resp})
+				out.Emit(map[string]interface{}{"mod": "query", "sub": "storage", "hist": hi, "i": i, "h": c.H, "now": unixNanoJ(c.T), "state": qst, "q": q, "resp": resp})
 				out.Count("query.storage."+kind, resp != "err")
 			}
 			msg, op, fill := g.next()
@@ -1164,7 +1238,7 @@ func runStorage(profile string, seed int64, histories, steps int, out *Emitter) 
 					}
 				}
 			}
-			out.Emit(map[string]interface{}{"mod": "storage", "hist": hi, "i": i, "h": c.H, "now": c.T.UnixNano(), "pre": pre, "op": op, "ok": res.OK, "err": res.Err, "success": success, "post": post, "badKeys": bad, "users": g.users})
+			out.Emit(map[string]interface{}{"mod": "storage", "hist": hi, "i": i, "h": c.H, "now": unixNanoJ(c.T), "pre": pre, "op": op, "ok": res.OK, "err": res.Err, "success": success, "post": post, "badKeys": bad, "users": g.users})
 			okc := res.OK
 			if s, isB := success.(bool); isB {
 				okc = s
